@@ -142,6 +142,9 @@ class Poly:
     def entails_lt(self, a, b):
         return self.entails_ge0(_a(b) - _a(a) - 1)
 
+    def entails_gt(self, a, b):
+        return self.entails_lt(b, a)
+
     def entails_eq(self, a, b):
         return self.entails_ge(a, b) and self.entails_le(a, b)
 
